@@ -191,6 +191,8 @@ package bytesconv
 //@ macro argPlain(c) = c != ' ' && !escArg(c)
 //@ macro argTok(e, p, c, pn) = (c == ' ' ==> e[p] == '+' && pn == p + 1) && (c != ' ' && escArg(c) ==> e[p] == '%' && e[p+1] == upperhex[c / 16] && e[p+2] == upperhex[c % 16] && pn == p + 3) && (argPlain(c) ==> e[p] == c && pn == p + 1)
 //@ macro isArgEncoding(e) = qn >= 0 && qpos[0] == 0 && qpos[qn] == len(e) && 0 <= qfs && qfs <= qn && forallT(k, 0, qn, qx[k], 0 <= qx[k] && qx[k] <= 255 && argTok(e, qpos[k], qx[k], qpos[k+1])) && forallT(k, 0, qn + 1, qpos[k], qpos[k] + (qn - k) <= len(e) && k <= qpos[k]) && forallT(k, 0, qfs + 1, qpos[k], qpos[k] == k) && forallT(k, 0, qfs, qx[k], argPlain(qx[k])) && (qfs < qn ==> !argPlain(qx[qfs]))
+//@ macro pathTok(e, p, c, pn) = (e[p] == '%' ==> e[p+1] == upperhex[c / 16] && e[p+2] == upperhex[c % 16] && pn == p + 3) && (e[p] != '%' ==> e[p] == c && pn == p + 1)
+//@ macro isPathEncoding(e) = qn >= 0 && qpos[0] == 0 && qpos[qn] == len(e) && 0 <= qfs && qfs <= qn && forallT(k, 0, qn, qx[k], 0 <= qx[k] && qx[k] <= 255 && pathTok(e, qpos[k], qx[k], qpos[k+1])) && forallT(k, 0, qn + 1, qpos[k], qpos[k] + (qn - k) <= len(e) && k <= qpos[k]) && forallT(k, 0, qfs + 1, qpos[k], qpos[k] == k) && (qfs < qn ==> e[qpos[qfs]] == '%')
 //@ macro hexTablesInverse() = forallT(v, 0, 16, upperhex[v], hexv(upperhex[v]) == v && upperhex[v] != '%' && upperhex[v] != '+')
 //@ macro argTablesFacts() = escArg('%') && escArg('+') && !escArg('0')
 //@ macro hexU(v) = upperhex[v]
@@ -222,3 +224,29 @@ package bytesconv
 //@     invariant !sameArray(old(dst), src) ==> forallT(k, 0, qn, qx[k], qx[k] == src[k])
 //@     invariant !sameArray(old(dst), src) ==> (qfs < len(src) ==> !argPlain(qx[qfs]))
 //@     invariant !sameArray(old(dst), src) ==> encStage(dst[len(old(dst)):], rangeindex + 1)
+
+// C17, path codec: same shape; a token is %XY or the byte itself (never '%' verbatim).
+//@ macro encStageP(e, m) = forallT(j, 0, m, qx[j], 0 <= qx[j] && qx[j] <= 255 && pathTok(e, qpos[j], qx[j], qpos[j+1])) && forallT(j, 0, m + 1, qpos[j], j <= qpos[j] && qpos[j] + (m - j) <= len(e) && (j <= qfs ==> qpos[j] == j))
+//@ func AppendQuotedPath(dst, src) r
+//@   props C17
+//@   alias dst
+//@   modifies spare(dst), qx, qpos, qn, qfs
+//@   allocates
+//@   ghostset-at-entry qn = len(src)
+//@   ghostset-at-entry qfs = len(src)
+//@   ghostset-at-entry qx = bytesOf(src)
+//@   ghostset-at-entry qpos[0] = 0
+//@   ghostset after append#0: qpos[1] = 1
+//@   ghostset after append#1: qfs = ite(rangeindex + 1 < qfs, rangeindex + 1, qfs)
+//@   ghostset after append#1: qpos[rangeindex + 2] = len(result) - len(old(dst))
+//@   ghostset after append#2: qpos[rangeindex + 2] = len(result) - len(old(dst))
+//@   assert @C17 before append#2: QuotedPathShouldEscapeTable['%'] != 0
+//@   ensures extends(r, dst) && spareOnly(dst)
+//@   ensures @C17 !sameArray(dst, src) ==> qn == len(src) && forallT(k, 0, qn, qx[k], qx[k] == old(src[k])) && isPathEncoding(r[len(dst):])
+//@   loop 0:
+//@     invariant -1 <= rangeindex && rangeindex < len(src)
+//@     invariant extends(dst, old(dst)) && spareOnly(old(dst))
+//@     invariant qn == len(src) && qpos[0] == 0 && qpos[rangeindex + 1] == len(dst) - len(old(dst)) && 0 <= qfs && (qfs == len(src) || qfs <= rangeindex)
+//@     invariant !sameArray(old(dst), src) ==> forallT(k, 0, qn, qx[k], qx[k] == src[k])
+//@     invariant !sameArray(old(dst), src) ==> (qfs < len(src) ==> dst[len(old(dst)) + qpos[qfs]] == '%')
+//@     invariant !sameArray(old(dst), src) ==> encStageP(dst[len(old(dst)):], rangeindex + 1)
